@@ -418,10 +418,10 @@ pub fn get_op_log_size() -> (u64, u64) {
 
 pub fn read_operations_since(since: u64) -> HashMap<String, OpLogRecord> {
     let mut opps_since = HashMap::new();
-    let f = get_log_file_read_mode(&Oplog::get_op_log_file_name());
-    read_operations_since_from_file(f, since, &mut opps_since);
-
-    let oplog_entries = get_op_log_entries_by_creation_date();
+    // Oldest file first, the live file last: every file overwrites the entries of the (database, key) pairs it
+    // mentions, so a key with records in several files ends up labelled with its most recent record
+    let mut oplog_entries = get_op_log_entries_by_creation_date();
+    oplog_entries.reverse();
     for oplog_file_entry in oplog_entries {
         let file_name = oplog_file_entry.file_name().into_string().unwrap();
         if file_name.ends_with(".op") {
@@ -430,6 +430,8 @@ pub fn read_operations_since(since: u64) -> HashMap<String, OpLogRecord> {
             read_operations_since_from_file(f, since, &mut opps_since);
         }
     }
+    let f = get_log_file_read_mode(&Oplog::get_op_log_file_name());
+    read_operations_since_from_file(f, since, &mut opps_since);
 
     opps_since
 }
